@@ -74,8 +74,8 @@ CONSTANTS
   MaxArity = {arity}
   MaxOps = {ops}
   EMIT = TRUE
-CONSTRAINT DepthBound
-INVARIANTS AllLaws Bounded
+CONSTRAINTS DepthBound {constraint}
+INVARIANTS AllLaws {inv}
 CHECK_DEADLOCK FALSE
 """
 
@@ -100,7 +100,7 @@ def erralg_stage(run, selftest, which="C04"):
     q = run.tier == "quick"
     # 1. exhaustive design check + one REPLAY line per transition
     cfg = EA_CFG.format(kinds='{"dup", "custom"}', names='{"x."}', locs='{"a", "b"}', spans="{1, 2}",
-                        pool=3, leaves=3, maxloc=1, arity=3, ops=7 if q else 9)
+                        pool=3, leaves=3, maxloc=1, arity=3, ops=7 if q else 9, constraint="", inv="Bounded")
     res = run.tlc("MC_ErrorAlgebra", cfg, "ea_exh", workers=4 if q else 8)
     run.require_tlc_ok(res, "ErrorAlgebra (exhaustive)")
     r = run.vh("replay", "erralg", res["out"])
@@ -117,7 +117,8 @@ def erralg_stage(run, selftest, which="C04"):
     # 2. beyond the exhaustive bounds: random walks of the same spec, wider alphabet, all ten kinds
     cfg = EA_CFG.format(kinds='{"custom", "dup", "missing", "unknown", "shape", "shapeexp", "format", "type", "value"}',
                         names='{"x", "y."}', locs='{"a", "b", "c"}', spans="{1, 2, 3}",
-                        pool=5, leaves=8, maxloc=3, arity=4, ops=40)
+                        pool=5, leaves=8, maxloc=3, arity=4, ops=40, constraint="Bounded", inv="")
+    # (random walks can lengthen a leaf's path without limit by bundling, locating and flattening in turn: the walk ends there)
     res = run.tlc("MC_ErrorAlgebra", cfg, "ea_sim", workers=1, simulate=12 if q else 150, depth=30)
     run.exhaustive = False if not q else run.exhaustive
     run.require_tlc_ok(res, "ErrorAlgebra (simulate)")
